@@ -179,6 +179,45 @@ def extract():
     gt = strip_comments(read("cstree/src/green/token.rs"))
     facts["greenTokenMarkersUnconditional"] = bool(re.search(r"unsafe\s+impl\s+Send\s+for\s+GreenToken\s*\{\s*\}", gt)) and bool(
         re.search(r"unsafe\s+impl\s+Sync\s+for\s+GreenToken\s*\{\s*\}", gt))
+    # ---- reference-count protocol (syntax/node.rs) ---------------------------------------------
+    ORD = {"Relaxed": 0, "Release": 1, "Acquire": 2, "AcqRel": 3, "SeqCst": 4}
+
+    def rmw(body, op):
+        """(amount, ordering code) of the only `ref_count.fetch_<op>(amount, Ordering::X)` in body"""
+        if body is None:
+            return (None, None)
+        ms = re.findall(r"ref_count\s*\.\s*fetch_" + op + r"\s*\(\s*([0-9_]+)\s*,\s*(?:std::sync::atomic::)?Ordering::(\w+)\s*\)", body)
+        if len(ms) != 1:
+            return (None, None)
+        return (rust_int(ms[0][0]), ORD.get(ms[0][1]))
+
+    clone_body = body_of(n, r"impl\s*<[^>]*>\s*Clone\s+for\s+SyntaxNode\s*<[^>]*>\s*")
+    drop_body = body_of(n, r"impl\s*<[^>]*>\s*Drop\s+for\s+SyntaxNode\s*<[^>]*>\s*")
+    tw = body_of(n, r"fn\s+try_write\s*\(")
+    node_branch = tok_branch = None
+    if tw:
+        mnode = re.search(r"SyntaxElement::Node\s*\(\s*\w+\s*\)\s*=>", tw)
+        mtok = re.search(r"SyntaxElement::Token\s*\(\s*\w+\s*\)\s*=>", tw)
+        if mnode and mtok:
+            node_branch = body_of(tw[mnode.end():], r"\{")
+            tok_branch = body_of(tw[mtok.end():], r"\{")
+    ca, co = rmw(clone_body, "add")
+    da, do = rmw(drop_body, "sub")
+    na, no = rmw(node_branch, "add")
+    ta, to = rmw(tok_branch, "add")
+    facts["cloneAmount"], facts["cloneOrdering"] = ca, co
+    facts["dropAmount"], facts["dropOrdering"] = da, do
+    facts["loserNodeComp"], facts["loserNodeOrdering"] = na, no
+    facts["loserTokenComp"], facts["loserTokenOrdering"] = ta, to
+    # the drop path tears down exactly when the decrement saw 1
+    m = re.search(r"let\s+(\w+)\s*=\s*ref_count\s*\.\s*fetch_sub[^;]*;\s*(?:#\[cfg\(cstree_verif\)\][^;]*;\s*)*if\s+(\w+)\s*==\s*([0-9_]+)", drop_body or "")
+    facts["teardownWhenPrev"] = rust_int(m.group(3)) if (m and m.group(1) == m.group(2)) else None
+    # every access to the counter is a read-modify-write (loads/stores would break the release sequence argument);
+    # loads inside cfg(cstree_verif) hooks are not part of the protocol
+    no_hooks = re.sub(r"#\[cfg\(cstree_verif\)\]\s*(?:\{[^{}]*\}|[^;]*;)", "", n)
+    no_hooks = re.sub(r"#\[cfg\(cstree_verif\)\]\s*impl[^{]*\{(?:[^{}]|\{[^{}]*\})*\}", "", no_hooks)
+    facts["allRefCountOpsAreRmw"] = not re.search(r"ref_count\s*\.\s*(load|store)\s*\(", no_hooks) and not re.search(r"\}\s*\.\s*(load|store)\s*\(", no_hooks)
+
     # ---- derive macro: comparator of the generated range assertion ------------------------------
     dl = strip_comments(read("cstree-derive/src/lib.rs"))
     m = re.search(r"assert!\s*\(\s*raw\.0\s*(<=|<)\s*#variant_count", dl)
